@@ -177,6 +177,8 @@ use vstd::std_specs::iter::IteratorSpec;''')
         '[C17:find-is-search] res is None ==> search(self.ids(), self.rows(), id, 0) is None',
         f'[C17:find-sound] res matches Some(r) ==> exists|s: int| 0 <= s < {N} && self.id_at(s) == id && self.row_at(s) == r',
         '[C17:find-absent] !present(self.ids(), id as nat) ==> res is None',
+        # an all-zero signature marks an unused slot: the key 0 is never "present" (FAILS on the pinned tree: finding F-index-3)
+        '[C17:find-zero-id-absent] id == 0 ==> res is None',
         f'[C17:find-is-scan] open_addressed(self.ids()) && id != 0 ==> forall|s: int| 0 <= s < {N} && self.id_at(s) == id ==> res == Some(self.row_at(s) as u32)',
     ], canary=True, attrs='#[verifier::loop_isolation(false)]',
         loops={0: 'invariant self.wf(), self.slot_count != 0, mask == self.slot_count - 1, is_pow2_u32(self.slot_count), '
@@ -218,7 +220,7 @@ impl<R: Reader<Offset = usize>> ArangeHeaderIter<R> {
     pub closed spec fn v_input(&self) -> RView { self.input.rv() }
     pub closed spec fn v_offset(&self) -> nat { self.offset.0 as nat }
     /// `offset` is the section offset of the next header and cannot overflow while the rest of the section is walked
-    pub open spec fn wf(&self) -> bool { self.v_offset() <= self.v_input().start && self.v_offset() + self.v_input().len <= usize::MAX }
+    pub open spec fn wf(&self) -> bool { self.v_offset() + self.v_input().len <= usize::MAX }
     /// position of the section start in the underlying buffer (constant over the iteration)
     pub open spec fn base(&self) -> int { self.v_input().start - self.v_offset() }
 }
@@ -285,6 +287,12 @@ pub proof fn lemma_arange_first_tuple_aligned(format: Format, address_size: u8)
         arange_first_tuple(format, address_size) % (2 * address_size as nat) == 0, // [C17:aranges-padding-aligned]
         arange_header_len(format) <= arange_first_tuple(format, address_size) < arange_header_len(format) + 2 * address_size, // [C17:aranges-padding-aligned]
 {
+    let h = arange_header_len(format);
+    assert(h == 12 || h == 24);
+    if address_size == 1 { assert(h % 2 == 0); }
+    else if address_size == 2 { assert(12nat % 4 == 0 && 24nat % 4 == 0); }
+    else if address_size == 4 { assert(12nat % 8 == 4 && 24nat % 8 == 0 && 16nat % 8 == 0); }
+    else { assert(12nat % 16 == 12 && 24nat % 16 == 8 && 16nat % 16 == 0 && 32nat % 16 == 0); }
 }
 '''
 
@@ -327,7 +335,7 @@ pub type Offset = usize;''')
     sk.add('read::aranges', da)
 
     da.splice('headers', ret='res', ensures=[
-        '[C17:aranges-iter-offset] res.wf() && res.v_input() == self.v_section() && res.v_offset() == 0'])
+        '[C17:aranges-iter-offset] res.v_input() == self.v_section() && res.v_offset() == 0 && (self.v_section().len <= usize::MAX ==> res.wf())'])
     LETP, HC, _ = hdr_clauses('self.v_section()', 'h', 'offset.0')
     da.splice('header', ret='res', ensures=[
         f'[C17:aranges-header-at] res matches Ok(h) ==> offset.0 <= self.v_section().len && ' + ' && '.join('(' + parse_tags(c)[1].replace('let b0 = self.v_section();', 'let b0 = RView { root: self.v_section().root, start: self.v_section().start + offset.0 as nat, len: (self.v_section().len - offset.0) as nat, be: self.v_section().be };') + ')' for c in HC)])
@@ -339,7 +347,7 @@ pub type Offset = usize;''')
         f'[C01:iter-finish] {OI}.len == 0 ==> res matches Ok(None)',
         f'[C01:iter-err-empties] res is Err ==> {FI}.len == 0',
         f'[C01:iter-progress] res matches Ok(Some(_)) ==> {FI}.len < {OI}.len',
-        f'[C01:frame] within({OI}, {FI})',
+        f'[C01:frame] {FI}.root == {OI}.root && {FI}.be == {OI}.be && ({FI}.len == 0 || within({OI}, {FI}))',
         '[C17:aranges-iter-offset][C10:view] final(self).wf() && (res is Ok ==> final(self).base() == old(self).base())',
         f'[C17:aranges-header-consume] res matches Ok(Some(h)) ==> ({{ {LET} adv(b0, {FI}, (ils + len) as nat) }})',
     ] + [''.join(f'[{t}]' for t in parse_tags(c)[0]) + ' res matches Ok(Some(h)) ==> ' + parse_tags(c)[1] for c in HC], canary=True)
@@ -369,9 +377,10 @@ pub type Offset = usize;''')
             f'&& e.v_end() == 0 && !(e.v_begin() == 0 && e.v_length() == 0) && adv(b0, {FI}, off + 2 * a) }})',
             f'[C17:aranges-end] res matches Ok(None) ==> ({{ {LET} b0.len < off + 2 * a && {FI}.len == 0 }})',
             '[C01:no-error] res is Ok',
-            f'[C01:frame] within({B0}, {FI})',
+            f'[C01:frame] {FI}.root == {B0}.root && {FI}.be == {B0}.be && ({FI}.len == 0 || within({B0}, {FI}))',
         ]
-    ei = ar.item(r'^impl<R: Reader> ArangeEntryIter<R>', label='ArangeEntryIter').clean().own(OWN)
+    ei = ar.item(r'^impl<R: Reader> ArangeEntryIter<R>', label='ArangeEntryIter')
+    ei.clean().own(OWN)
     OI, FI = 'old(self).v_input()', 'final(self).v_input()'
     AS = 'self.v_encoding().address_size'
     PROTO = [f'[C01:iter-finish] {OI}.len == 0 ==> res matches Ok(None)',
@@ -388,7 +397,7 @@ pub type Offset = usize;''')
     ], canary=True)
     A2 = 'old(self).v_encoding().address_size'
     ei.splice('next', ret='res', requires=['[C01:address-size-validated] old(self).wf()'], ensures=PROTO + [
-        f'[C01:frame] within({OI}, {FI})',
+        f'[C01:frame] {FI}.root == {OI}.root && {FI}.be == {OI}.be && ({FI}.len == 0 || within({OI}, {FI}))',
         f'[C17:aranges-next] res matches Ok(Some(e)) ==> ({{ let a = {A2} as int; let p = {FI}.start - {OI}.start - 2 * a; p >= 0 && e.v_begin() == {OI}.u(p, a) && e.v_length() == {OI}.u(p + a, a) '
         f'&& !(e.v_begin() == 0 && e.v_length() == 0) && e.v_begin() < ones({A2}) - 1 && e.v_end() == e.v_begin() + e.v_length() && e.v_end() <= ones({A2}) }})',
     ], loops={0: f'invariant self.wf(), self.v_encoding() == old(self).v_encoding(), within({OI}, self.v_input()), decreases self.v_input().len'}, canary=True)
@@ -404,19 +413,154 @@ pub type Offset = usize;''')
     sk.add('read::aranges', en)
 
 
+LOOKUP_PARSER_GHOST = '''
+    // ---- ghost relations of the contract layer: what it means that `parse_header` / `parse_entry` decoded the bytes at `b0`
+    /// `parse_header` read a set header at b0: the set's entries are the window `set`, the input continues at `b1`
+    spec fn header_at(b0: RView, set: RView, header: Self::Header, b1: RView) -> bool;
+    /// `parse_entry` read `entry` at b0 and left the set input at `b1`
+    spec fn entry_at(b0: RView, header: Self::Header, entry: Self::Entry, b1: RView) -> bool;
+'''
+
+LOOKUP_ITER_GHOST = '''
+impl<R, Parser> LookupEntryIter<R, Parser>
+where
+    R: Reader<Offset = usize>,
+    Parser: LookupParser<R>,
+{
+    /// bytes of the current set that are still to be read (0 when there is no current set)
+    pub closed spec fn cur_len(&self) -> nat { match self.current_set { Some(p) => p.0.rv().len, None => 0 } }
+    pub closed spec fn has_cur(&self) -> bool { self.current_set is Some }
+    /// view of the current set's input / the current set's header (meaningful when has_cur())
+    pub closed spec fn v_cur_input(&self) -> RView { self.current_set->Some_0.0.rv() }
+    pub closed spec fn v_cur_header(&self) -> Parser::Header { self.current_set->Some_0.1 }
+    pub closed spec fn v_remaining(&self) -> RView { self.remaining_input.rv() }
+}
+'''
+
+PUBSTUFF_ENTRY_GHOST = '''
+    spec fn v_die_offset(&self) -> nat;
+    spec fn v_name(&self) -> RView;
+    spec fn v_unit_header_offset(&self) -> nat;
+'''
+
+PUBSTUFF_SPEC = '''
+impl<T: ReaderOffset> PubStuffHeader<T> {
+    pub closed spec fn v_format(&self) -> Format { self.format }
+    pub closed spec fn v_length(&self) -> nat { self.length.as_nat() }
+    pub closed spec fn v_version(&self) -> u16 { self.version }
+    pub closed spec fn v_unit_offset(&self) -> nat { self.unit_offset.0.as_nat() }
+    pub closed spec fn v_unit_length(&self) -> nat { self.unit_length.as_nat() }
+}
+
+/// DWARF 5 6.1.1 / 7.19 (name lookup tables, DWARF <= 4): unit_length, version (2), debug_info_offset, debug_info_length
+pub open spec fn pubstuff_header_at(b0: RView, set: RView, h: PubStuffHeader<usize>, b1: RView) -> bool {
+    let w = b0.u(0, 4);
+    let fmt = if w == 0xffff_ffff { Format::Dwarf64 } else { Format::Dwarf32 };
+    let ils = if w == 0xffff_ffff { 12int } else { 4int };
+    let ws = word_size(fmt) as int;
+    let len = if w == 0xffff_ffff { b0.u(4, 8) } else { w };
+    &&& (w < 0xffff_fff0 || w == 0xffff_ffff)
+    &&& h.v_format() == fmt && h.v_length() == len
+    &&& h.v_version() == 2 && b0.u(ils, 2) == 2
+    &&& h.v_unit_offset() == b0.u(ils + 2, ws)
+    &&& h.v_unit_length() == b0.u(ils + 2 + ws, ws)
+    &&& 2 + 2 * ws <= len
+    &&& window(b0, set, (ils + 2 + 2 * ws) as nat, (len - 2 - 2 * ws) as nat)
+    &&& adv(b0, b1, (ils + len) as nat)
+}
+
+/// an entry: offset of the DIE within its unit (non-zero), followed by the null-terminated name
+pub open spec fn pubstuff_entry_at<R: Reader<Offset = usize>, E: PubStuffEntry<R>>(b0: RView, h: PubStuffHeader<usize>, e: E, b1: RView) -> bool {
+    let ws = word_size(h.v_format()) as int;
+    let n = e.v_name().len;
+    &&& e.v_die_offset() == b0.u(0, ws) && e.v_die_offset() != 0
+    &&& e.v_unit_header_offset() == h.v_unit_offset()
+    &&& window(b0, e.v_name(), ws as nat, n)
+    &&& b0.at(ws + n) == 0 && (forall|j: int| 0 <= j < n ==> b0.at(ws + j) != 0)
+    &&& adv(b0, b1, (ws + n + 1) as nat)
+}
+'''
+
+
+def populate_lookup(ctx, sk):
+    lk = Source('read/lookup.rs', ctx)
+    sk.module('read::lookup', '''use core::marker::PhantomData;
+use crate::common::{DebugInfoOffset, Format};
+use crate::read::{Error, Reader, ReaderOffset, Result, UnitOffset};
+use crate::vspec::*;''')
+    # ---- trait LookupParser: the contract every table parser is held to, and LookupEntryIter is proved against
+    tp = lk.item(r'^pub trait LookupParser<R: Reader>', label='LookupParser').clean()
+    tp.insert_members(LOOKUP_PARSER_GHOST)
+    B0, B1 = 'old(input).rv()', 'final(input).rv()'
+    tp.splice('parse_header', ret='res', ensures=[
+        f'[C17:lookup-header] res matches Ok(p) ==> Self::header_at({B0}, p.0.rv(), p.1, {B1})',
+        f'[C01:iter-progress] res is Ok ==> {B1}.len < {B0}.len',
+        f'[C01:frame] within({B0}, {B1})'])
+    tp.splice('parse_entry', ret='res', ensures=[
+        f'[C17:lookup-entry] res matches Ok(Some(e)) ==> Self::entry_at({B0}, *header, e, {B1})',
+        f'[C01:iter-progress] res matches Ok(Some(_)) ==> {B1}.len < {B0}.len',
+        f'[C01:frame] {B1}.root == {B0}.root && {B1}.be == {B0}.be && ({B1}.len == 0 || within({B0}, {B1}))'])
+    sk.add('read::lookup', tp)
+    sk.add('read::lookup', lk.item(r'^pub struct LookupEntryIter<R, Parser>', label='LookupEntryIter').clean(rejrec=['R', 'Parser']))
+    sk.add('read::lookup', LOOKUP_ITER_GHOST, label='LookupEntryIter(ghost)')
+    it = lk.item(r'^impl<R, Parser> LookupEntryIter<R, Parser>', label='LookupEntryIter').clean().own(OWN)
+    O, F = 'old(self)', 'final(self)'
+    it.splice('next', ret='res', ensures=[
+        f'[C01:iter-finish] {O}.cur_len() == 0 && {O}.v_remaining().len == 0 ==> res matches Ok(None)',
+        f'[C01:iter-err-empties] res is Err ==> {F}.cur_len() == 0 && {F}.v_remaining().len == 0',
+        f'[C01:iter-none-final] res matches Ok(None) ==> {F}.cur_len() == 0 && {F}.v_remaining().len == 0',
+        f'[C01:iter-progress] res matches Ok(Some(_)) ==> {F}.cur_len() + {F}.v_remaining().len < {O}.cur_len() + {O}.v_remaining().len '
+        f'|| ({F}.v_remaining().len < {O}.v_remaining().len)',
+        f'[C17:lookup-next] res matches Ok(Some(e)) ==> {F}.has_cur() && exists|b0: RView| Parser::entry_at(b0, {F}.v_cur_header(), e, {F}.v_cur_input())',
+        f'[C01:frame] {F}.v_remaining().root == {O}.v_remaining().root && ({F}.v_remaining().len == 0 || within({O}.v_remaining(), {F}.v_remaining()))',
+    ], loops={0: f'invariant self.v_remaining().root == {O}.v_remaining().root, within({O}.v_remaining(), self.v_remaining()), '
+                 f'self.cur_len() + self.v_remaining().len <= {O}.cur_len() + {O}.v_remaining().len || self.v_remaining().len < {O}.v_remaining().len, '
+                 'decreases self.v_remaining().len, self.cur_len()'})
+    # witness for the existential of [C17:lookup-next]: the view of the set input before `parse_entry` (ghost block around the
+    # `return` of the match arm; a block wrapper does not change the meaning of `=> return e,`)
+    it.insert_before('match Parser::parse_entry(input, header) {', 'let ghost pre = input.rv();\n                ')
+    it.insert_before('return Ok(Some(entry)),', '{ proof { assert(Parser::entry_at(pre, *header, entry, input.rv())); assert(self.v_cur_header() == *header); assert(self.v_cur_input() == input.rv()); assert(Parser::entry_at(pre, self.v_cur_header(), entry, self.v_cur_input())); } ')
+    it.insert_after('return Ok(Some(entry))', ' }')
+    sk.add('read::lookup', it)
+
+
+def widen_reader_address(ctx, sk):
+    """R-VIS (logged; same rule as lists.py): `pub(crate) trait ReaderAddress` -> `pub trait ReaderAddress`.
+    Verus 0.2026.09 panics (vir/sst_to_air.rs: "no entry found for key") on a call of a default method of a pub(crate)
+    trait through the concrete type from another module (`u64::min_tombstone(..)` in convert_raw). Visibility widening only."""
+    old, new = 'pub(crate) trait ReaderAddress', 'pub trait ReaderAddress'
+    for it, _label, _own in sk.mods['read::reader']['chunks']:
+        if isinstance(it, Item) and it.label == 'ReaderAddress' and old in it.text:
+            it.text = it.text.replace(old, new, 1)
+            it.base = it.base.replace(old, new, 1)
+            ctx.custom.append(('R-VIS', it._where(''), old, new))
+            ctx.count('R-VIS')
+            return
+    raise Lost('widen_reader_address: trait ReaderAddress not found')
+
+
 def strengthen_core(sk):
     """verified strengthening of a core item inside this batch: `usize::from_u64` never fails on a 64-bit target
     (the trait-level contract only promises success up to 0xffff_ffff)"""
     rou = [c for c in sk.mods['read::reader']['chunks'] if not isinstance(c[0], str) and c[0].label == 'ReaderOffset for usize'][0][0]
     rou.splice('from_u64', ret='res', ensures=['[C01:checked-width] res is Ok'])
+    # `read_address` fails only at the end of input (core states the value, not the exact error condition)
+    rd = [c for c in sk.mods['read::reader']['chunks'] if not isinstance(c[0], str) and c[0].label == 'Reader'][0][0]
+    anchor = '!valid_address_size(address_size) ==> res is Err, // [C09:address-size-reject]'
+    if rd.text.count(anchor) != 1:
+        raise Lost('strengthen_core: read_address contract anchor')
+    # (the anchor lies inside core's inserted contract block, so the extra clause is part of that sentinel region)
+    rd.text = rd.text.replace(anchor, anchor + '\n    valid_address_size(address_size) ==> (res is Err <==> old(self).rv().len < address_size), // [C01:eof-exact]')
 
 
 def populate(ctx, sk):
     strengthen_core(sk)
+    widen_reader_address(ctx, sk)
     sk.module('vspec_index', 'use crate::vspec::*;')
     sk.add('vspec_index', core.rd('specs/index.rs'), label='vspec_index', owners=['C17'])
     populate_index(ctx, sk)
     populate_aranges(ctx, sk)
+    populate_lookup(ctx, sk)
     return sk
 
 
